@@ -1022,6 +1022,38 @@ impl BRC20ProgEngine {
     }
 }
 
+#[cfg(brc20_prog_verif)]
+impl BRC20ProgEngine {
+    /// Verification hook: make a live engine indistinguishable from a freshly created one.
+    pub fn verif_wipe(&self) {
+        self.last_block_info
+            .write_fn_unchecked(|info| *info = LastBlockInfo::new());
+        self.db
+            .write_fn(|db| {
+                db.verif_wipe();
+                Ok(())
+            })
+            .expect("verif_wipe");
+    }
+
+    /// Verification hook: read-only dump of the complete engine state (without `Instant`s).
+    pub fn verif_dump(&self) -> crate::verif::VerifDump {
+        let (tables, latest_block_number) = self.db.read().verif_dump();
+        let info = self.last_block_info.read();
+        crate::verif::VerifDump {
+            tables,
+            latest_block_number,
+            last_block_info: (
+                info.waiting_tx_count,
+                info.timestamp,
+                info.hash.0,
+                info.gas_used,
+                info.log_index,
+            ),
+        }
+    }
+}
+
 fn generate_block_hash(block_number: u64) -> B256 {
     // +1 to avoid zero hash
     let bytes = (block_number + 1).to_be_bytes();
